@@ -430,7 +430,10 @@ type blockSpec struct {
 	twp   bool
 	lch   int64
 	toks  []sigTok
+	mal   string // "" / "-" = well-formed; else the way the block fails BlockFromProto / ValidateBasic
 }
+
+var malKinds = []string{"datahash", "lchash", "evhash", "nolc", "sigtoolong", "absentaddr", "lcround"}
 
 func (ch *chain) build(s blockSpec) *types.Block {
 	var lc *types.Commit
@@ -439,8 +442,41 @@ func (ch *chain) build(s blockSpec) *types.Block {
 	} else {
 		lc = makeCommit(s.lch, ch.target(s.h-1, s.ttxv, s.tflaw, s.twp), s.toks)
 	}
-	return ch.variant(s.h, s.txv, s.flaw, lc)
+	switch s.mal {
+	case "sigtoolong":
+		for i := range lc.Signatures {
+			if !lc.Signatures[i].Absent() {
+				lc.Signatures[i].Signature = append(append([]byte{}, lc.Signatures[i].Signature...), 0x01)
+				break
+			}
+		}
+	case "absentaddr":
+		if len(lc.Signatures) > 0 {
+			lc.Signatures[len(lc.Signatures)-1] = types.CommitSig{BlockIDFlag: types.BlockIDFlagAbsent,
+				ValidatorAddress: keys[0].PubKey().Address()}
+		}
+	case "lcround":
+		lc.Round = -1
+	}
+	b := ch.variant(s.h, s.txv, s.flaw, lc)
+	switch s.mal {
+	case "datahash": // the right header over other transactions
+		b.Data = types.Data{Txs: []types.Tx{types.Tx("something=else")}}
+	case "lchash": // header commits to another LastCommit
+		// (Commit.Hash covers the signature entries only)
+		sigs := append([]types.CommitSig{}, lc.Signatures...)
+		sigs = append(sigs, types.CommitSig{BlockIDFlag: types.BlockIDFlagNil, ValidatorAddress: keys[0].PubKey().Address(),
+			Timestamp: baseTime, Signature: []byte{1}})
+		b.LastCommit = types.NewCommit(lc.Height, lc.Round, lc.BlockID, sigs)
+	case "evhash":
+		b.EvidenceHash = make([]byte, 32)
+	case "nolc":
+		b.LastCommit = nil
+	}
+	return b
 }
+
+func (s blockSpec) malformed() bool { return s.mal != "" && s.mal != "-" }
 
 func b01(x bool) string {
 	if x {
@@ -462,8 +498,17 @@ func toksStr(t []sigTok) string {
 
 // blockOp renders the op line for delivering the block described by s from peer p.
 func (ch *chain) blockOp(p int, s blockSpec) string {
+	if s.malformed() {
+		// ids of a block that does not decode are not compared
+		ws := s
+		ws.mal = ""
+		wb := ch.build(ws)
+		return fmt.Sprintf("block p=%d h=%d id=0/0 prev=%s flaw=%s lc=%d:0:%s:%s nv=%s mal=1 d=%d/%d%s%s/%s",
+			p, s.h, idTok(wb.LastBlockID), b01(s.flaw), s.lch, idTok(wb.LastCommit.BlockID), toksStr(s.toks),
+			ch.nvOf(s.h, s.txv), s.txv, s.ttxv, b01(s.tflaw), b01(s.twp), s.mal)
+	}
 	b := ch.build(s)
-	return fmt.Sprintf("block p=%d h=%d id=%s prev=%s flaw=%s lc=%d:0:%s:%s nv=%s d=%d/%d%s%s",
+	return fmt.Sprintf("block p=%d h=%d id=%s prev=%s flaw=%s lc=%d:0:%s:%s nv=%s mal=0 d=%d/%d%s%s/-",
 		p, s.h, idTok(blockIDOf(b)), idTok(b.LastBlockID), b01(s.flaw), s.lch, idTok(b.LastCommit.BlockID), toksStr(s.toks),
 		ch.nvOf(s.h, s.txv), s.txv, s.ttxv, b01(s.tflaw), b01(s.twp))
 }
@@ -544,7 +589,22 @@ func (ch *chain) parseBlockOp(m map[string]string) (blockSpec, bool) {
 		return s, false
 	}
 	d := strings.Split(m["d"], "/")
-	if len(d) != 2 || len(d[1]) != 3 {
+	if len(d) != 3 || len(d[1]) != 3 {
+		return s, false
+	}
+	if _, err := strconv.ParseUint(m["mal"], 10, 64); err != nil {
+		return s, false
+	}
+	s.mal = d[2]
+	if s.mal != "-" {
+		known := false
+		for _, k := range malKinds {
+			known = known || k == s.mal
+		}
+		if !known || m["mal"] == "0" {
+			return s, false
+		}
+	} else if m["mal"] != "0" {
 		return s, false
 	}
 	if s.txv, err = strconv.Atoi(d[0]); err != nil {
